@@ -263,3 +263,20 @@ Proof. exists (fun _ => SimAbort), "Reservoir Model, 5". split; [reflexivity|]. 
 Lemma json_path_pinned_counterexample :
   exists out, json_path out = Some "a.out/a.json" /\ json_path_pinned out = "a.json/a.json" /\ out = "a.out/a.out".
 Proof. exists "a.out/a.out". repeat split; vm_compute; reflexivity. Qed.
+
+(* ------------------------------------------------------------------ the direct pipeline with a relative / missing output *)
+Lemma direct_pipeline_paths cwd cwd' pkg a inp rel :
+  wf_abs (parse pkg) = true -> wf_abs (parse cwd) = true -> is_abs (parse rel) = false ->
+  main_files cwd pkg [a; inp; rel] = main_files cwd' pkg [a; inp; rel]
+  /\ parse (f_report (main_files cwd pkg [a; inp; rel]))
+     = {| p_root := p_root (parse pkg); p_parts := (p_parts (parse pkg) ++ p_parts (parse rel))%list |}
+  /\ parse (f_report (main_files cwd pkg [a; inp]))
+     = {| p_root := p_root (parse pkg); p_parts := (p_parts (parse pkg) ++ ["HDR.out"])%list |}
+  /\ option_map parse (f_json (main_files cwd pkg [a; inp]))
+     = Some {| p_root := p_root (parse cwd); p_parts := (p_parts (parse cwd) ++ ["HDR.json"])%list |}.
+Proof.
+  intros Wp Wc R. split; [reflexivity|]. unfold main_files. cbn [nth_error f_report f_json option_map]. repeat split.
+  - rewrite parse_absolute by assumption. unfold join. now rewrite R.
+  - rewrite parse_absolute by assumption. reflexivity.
+  - f_equal. apply parse_to_str. exact (join_wf cwd "HDR.json" Wc).
+Qed.
